@@ -545,6 +545,18 @@ func init() {
 		},
 	})
 	eng.Register(&eng.Scenario{
+		Name: "pcontainer-plain-cancel", Props: []string{"C11"}, ObsNames: stdObs,
+		Doc:   "PromiseContainer: a plain Await awaiter with a cancellable context + canceller, while promises are installed and resolved (or the container is still empty / emptied again by SetPromise(nil)): a cancelled await returns (zero, context.Canceled), never a result nobody set",
+		Quick: eng.Bounds{PB: 1}, Thorough: eng.Bounds{PB: 2},
+		Body: containerBody([]int{aPlain}, true, true),
+	})
+	eng.Register(&eng.Scenario{
+		Name: "pcontainer-two-awaiters", Props: []string{"C11"}, ObsNames: stdObs,
+		Doc:   "PromiseContainer: two awaiters at once (Await and AwaitWithCancelCh) entering while the container is still empty, then promises p1, p2 are installed and resolved: both return the current promise's result",
+		Quick: eng.Bounds{PB: 1}, Thorough: eng.Bounds{PB: 2},
+		Body: containerBody([]int{aPlain, aCancelCh}, false, false),
+	})
+	eng.Register(&eng.Scenario{
 		Name: "pcontainer-errch-empty", Props: []string{"C11"}, ObsNames: stdObs,
 		Doc:   "PromiseContainer with no promise: AwaitWithErrCh must return when the error channel delivers or closes",
 		Quick: eng.Bounds{PB: 3}, Thorough: eng.Bounds{PB: 5},
